@@ -67,14 +67,23 @@ def r3_vint64_length(c):
     bad, und = [], []
     for z in range(65):
         an.overrides = {(f.key, lz[0][1]["dest"][0]): (z, z)}
+        an.feasible = {}
         guardcells._clear(an)
-        iv = an.eval_op(f, ["cp", [0]], (rb[0], f.INF - 1))
+        # definitions in blocks that the pinned class cannot reach do not contribute
+        an.feasible = {f.key: guardcells.feasible_blocks(an, f)}
+        guardcells._clear(an)
+        iv = None
+        for r in rb:
+            if r in an.feasible[f.key]:
+                v = an.eval_op(f, ["cp", [0]], (r, f.INF - 1))
+                iv = v if iv is None else intervals.join(iv, v)
         want = vint64_len(64 - z)
         if iv is None or iv[0] != iv[1]:
             und.append(z)
         elif iv[0] != want:
             bad.append("%d significant bits -> %d (vint64: %d)" % (64 - z, iv[0], want))
     an.overrides = {}
+    an.feasible = {}
     ok = not bad and not und
     c.ob("R3", "vint64-length-table", ok,
          "usize_encoded_len = 9 for > 56 significant bits, else max(1, ceil(bits / 7)), on all 65 leading-zero classes" if ok else
